@@ -107,6 +107,8 @@ def _build(case):
             for i, r in enumerate(case["explicit"]):
                 if i < n and s == 0:
                     A[i] = gen.rot(r)
+            if (k + case["k"]) % 3 == 1:
+                A = np.asfortranarray(A)  # same values, other memory layout
             As.append(A)
             fs.append(gen.volumes(case["vol"][k % 6], n))
             k += 1
